@@ -214,7 +214,9 @@ func chunkLen(t *rapid.T, label string, pos int, max int) int {
 }
 
 var pngAncillary = []string{"gAMA", "cHRM", "sRGB", "pHYs", "tIME", "tEXt", "zTXt", "iTXt", "bKGD", "sBIT", "prVt", "vpAg",
-	"tRNS", "sPLT", "eXIf", "oFFs", "pCAL", "sCAL", "sTER", "acTL", "cICP", "mDCv", "cLLi", "bKGD", "tRNS"}
+	"tRNS", "sPLT", "eXIf", "oFFs", "pCAL", "sCAL", "sTER", "acTL", "cICP", "mDCv", "cLLi", "bKGD", "tRNS",
+	// private / unknown types one letter away from iCCP: they are not profiles
+	"iCCp", "icCP", "iCCQ", "iCCN"}
 
 // PNGAncillary draws the type of an ancillary chunk that may legally stand between IHDR and PLTE/IDAT in a PNG of
 // the given colour type (so also before or after iCCP), and a fixed data length where the chunk type has one that
@@ -287,6 +289,23 @@ func PNG(t *rapid.T, o Opts) File {
 		d := make([]byte, ln)
 		for k := range d {
 			d[k] = byte(k*7 + i)
+		}
+		if fixed < 0 && ln < 60000 && rapid.IntRange(0, 2).Draw(t, "realanc") == 0 {
+			// the payloads real writers put there
+			v := rapid.IntRange(0, 999).Draw(t, "ancvar")
+			switch typ {
+			case "eXIf":
+				d = build.Vocab("exif", v).Data[6:]
+			case "iTXt":
+				d = append([]byte("XML:com.adobe.xmp\x00\x00\x00\x00\x00"), build.Vocab("xmp", v).Data[29:]...)
+			case "tEXt":
+				d = []byte(fmt.Sprintf("Software\x00encoder %d", v))
+			case "zTXt":
+				d = append([]byte("Raw profile type icc\x00\x00"), build.ICCPChunk("x", build.SimpleProfile(build.TextDesc("ztxt"), v%9), 6).Data[3:]...)
+			case "iCCp", "icCP", "iCCQ", "iCCN":
+				d = build.ICCPChunk("not a profile chunk", build.SimpleProfile(build.TextDesc("decoy"), v%9), 6).Data
+			}
+			ln = len(d)
 		}
 		p.Pre = append(p.Pre, build.Chunk{Type: typ, Data: d})
 		pos += 12 + ln
@@ -659,7 +678,18 @@ func WebP(t *rapid.T, o Opts) File {
 		}
 		for _, fc := range []string{"ANIM", "ALPH", "EXIF", "XMP "} {
 			if rapid.IntRange(0, 3).Draw(t, "opt"+fc) == 0 {
-				w.Chunks = append(w.Chunks, build.RIFFChunk{FourCC: fc, Data: body(rapid.IntRange(0, 50).Draw(t, "optlen"))})
+				d := body(rapid.IntRange(0, 50).Draw(t, "optlen"))
+				if (fc == "EXIF" || fc == "XMP ") && rapid.Bool().Draw(t, "realpayload") {
+					// what encoders really store there: a TIFF structure (some with the JPEG-style "Exif\0\0" prefix), an XMP packet
+					seg := build.Vocab(map[string]string{"EXIF": "exif", "XMP ": "xmp"}[fc], rapid.IntRange(0, 999).Draw(t, "vocabvar"))
+					d = seg.Data
+					if fc == "XMP " {
+						d = d[29:]
+					} else if rapid.Bool().Draw(t, "bareexif") {
+						d = d[6:]
+					}
+				}
+				w.Chunks = append(w.Chunks, build.RIFFChunk{FourCC: fc, Data: d})
 			}
 		}
 		if rapid.Bool().Draw(t, "lossy") {
